@@ -228,10 +228,16 @@ static Boolean DecodeGenRegCore(char const* pArg, LongWord* pValue) {
     if ((strlen(pArg) < 2) || (as_toupper(*pArg) != 'R')) {
         return False;
     } else {
-        Boolean OK;
+        Boolean  OK;
+        LargeInt Num = ConstLongInt(pArg + 1, &OK, 10);
 
-        *pValue = ConstLongInt(pArg + 1, &OK, 10);
-        return (OK && (*pValue <= 31));
+        /* compare before narrowing: r4294967297 is not r1 */
+
+        if (!OK || (Num < 0) || (Num > 31)) {
+            return False;
+        }
+        *pValue = (LongWord)Num;
+        return True;
     }
 }
 
@@ -248,10 +254,14 @@ static Boolean DecodeFPRegCore(char const* pArg, LongWord* pValue) {
         || (as_toupper(pArg[1]) != 'R')) {
         return False;
     } else {
-        Boolean OK;
+        Boolean  OK;
+        LargeInt Num = ConstLongInt(pArg + 2, &OK, 10);
 
-        *pValue = ConstLongInt(pArg + 2, &OK, 10);
-        return OK && (*pValue <= 31);
+        if (!OK || (Num < 0) || (Num > 31)) {
+            return False;
+        }
+        *pValue = (LongWord)Num;
+        return True;
     }
 }
 
